@@ -5,7 +5,7 @@
     links to. *)
 From Coq Require Import List NArith Bool String.
 From RG Require Import Base.Str Base.Dec Model.Url Model.Href Model.Fs Model.Site Spec.SiteSpec
-  Proofs.SiteLinks.
+  Proofs.SiteLinks Proofs.SiteNav.
 Import ListNotations.
 Open Scope string_scope.
 Open Scope list_scope.
@@ -79,4 +79,42 @@ Example C14_demo_no_dead_links :
 Proof.
   destruct (demo_site 2) as [files|e] eqn:Hs; [|vm_compute in Hs; discriminate].
   exists files. split; [reflexivity|]. vm_compute in Hs. inversion Hs. subst files. vm_compute. reflexivity.
+Qed.
+
+(** ** Navigation targets exist
+
+    Every navigation link of every written page - breadcrumbs, sub-category and recipe lists,
+    the home page's serving buttons, a recipe page's serving menu and the link round its
+    original serving count, the style sheet reference - is [relative_url(page, target)]
+    ( = quote(relative(page, target)), Props/C14.v shows that a browser resolves it back to
+    [target]) for a [target] that the generator writes. *)
+Theorem C14_nav_targets_exist : forall E fs input M files root t,
+  generate_static_site E fs input M = Ok files ->
+  realpath fs input = ROk root -> view_root fs root = Some t -> uniq_names t -> 1 <= M ->
+  forall f po, In (f, CPageOut po) files ->
+    (forall lh, In lh (po_crumbs po ++ po_cats po ++ po_recs po ++ po_servs po ++ po_menu po) ->
+       exists g, In g (map fst files) /\ snd lh = href_relative_url f g) /\
+    (forall o, po_orig po = Some o -> exists g, In g (map fst files) /\ o = href_relative_url f g) /\
+    hd_error (po_refs po) = Some (a_href, href_relative_url f css_path) /\ In css_path (map fst files).
+Proof. exact site_nav_targets. Qed.
+Print Assumptions C14_nav_targets_exist.
+
+(** ** Every page is reachable from the home page
+
+    [linked files f g]: page [f] carries a serving button / category-list / recipe-list link
+    equal to [relative_url(f, g)]; [reachable] is its reflexive-transitive closure.  Holds for
+    every successful generation (no hypothesis on the tree). *)
+Theorem C14_reachable : forall E fs input M files,
+  generate_static_site E fs input M = Ok files ->
+  forall f po, In (f, CPageOut po) files -> reachable files home_path f.
+Proof. exact site_reachable. Qed.
+Print Assumptions C14_reachable.
+
+Example C14_reachable_ex :
+  exists files, demo_site 2 = Ok files /\ In (s "/categories/sub/b.html") (map fst files) /\
+                In (s "/serves2/a.html") (map fst files).
+Proof.
+  destruct (demo_site 2) as [files|e] eqn:Hs; [|vm_compute in Hs; discriminate].
+  vm_compute in Hs. inversion Hs. subst files. clear Hs.
+  eexists. split; [reflexivity|]. split; vm_compute; tauto.
 Qed.
